@@ -47,6 +47,11 @@ pub struct SeqCfg {
     /// (its own handler and decoder; strictly one command at a time): which connection a command
     /// arrives on is the client's business, not the store's (0 = one connection)
     pub alt_conn_from: usize,
+    /// None: every answer sequence to the victim choices of a step is enumerated.  Some(d): the
+    /// first record in iteration order is the default victim and a step may depart from it at most
+    /// d times (deviation bound) - for configurations whose steps evict a dozen records in a row,
+    /// where the full tree is factorial.  Said in the configuration's name.
+    pub victim_deviations: Option<u32>,
     /// non-initial start states: histories (alphabet indices, no victim choices) whose every step is
     /// judged once and from whose end states the exploration starts as well as from the empty store
     pub roots: Vec<Vec<u16>>,
@@ -669,7 +674,7 @@ pub fn explore_seq(cfg: &SeqCfg, threads: usize, tree_depth: usize) -> SeqReport
                         for ci in 0..cfg.alphabet.len() {
                             crate::watchdog::beat();
                             // enumerate every answer sequence to the victim choices
-                            let mut dfs = explore::Dfs::new(u32::MAX);
+                            let mut dfs = explore::Dfs::new(cfg.victim_deviations.unwrap_or(u32::MAX));
                             while let Some(prefix) = dfs.next_prefix() {
                                 let mut r = Runner::new(cfg);
                                 if let Err(e) = r.run_history(h) {
@@ -696,8 +701,10 @@ pub fn explore_seq(cfg: &SeqCfg, threads: usize, tree_depth: usize) -> SeqReport
                                 let mut cum = 0;
                                 for (k, n) in ap.choice_ns.iter().enumerate() {
                                     let chosen = if k < prefix.len() { prefix[k] } else { 0 };
-                                    ctx.log.push(explore::Point { n: *n, chosen, costs: vec![0; *n], cum });
-                                    cum += 0;
+                                    let costs: Vec<u32> = if cfg.victim_deviations.is_some() { (0..*n).map(|a| (a > 0) as u32).collect() } else { vec![0; *n] };
+                                    let cost = costs[chosen];
+                                    ctx.log.push(explore::Point { n: *n, chosen, costs, cum });
+                                    cum += cost;
                                 }
                                 let full_choices: Vec<u8> = ctx.log.iter().map(|p| p.chosen as u8).collect();
                                 if let Err(e) = dfs.finish(ctx) {
